@@ -154,16 +154,24 @@ def simulate(
     sm = sm.copy()
     if isinstance(init, statematrix.StateMatrix):
         # the partial derivatives carried by the initial state matrix continue with it
-        # (with the same options; equilibrium and coordinates are those of the partials themselves)
+        # (with the same options and coordinate table; a partial's equilibrium stays zero)
         popts = {
             key: options[key]
             for key in options
-            if key not in ("equilibrium", "coords", "density")
+            if key not in ("equilibrium", "density")
         }
+
+        def _continue(part):
+            part = part.copy(**popts)
+            # same batch shape as the main state matrix (partials are accumulated in place)
+            part.arrays.broadcast(common.broadcast_shapes(part.shape, sm.shape, append=True))
+            part.arrays.set("states", part.arrays.get("states"))
+            return part
+
         for name in ("order1", "order2"):
             if hasattr(init, name):
                 partials = getattr(init, name)
-                setattr(sm, name, {key: partials[key].copy(**popts) for key in partials})
+                setattr(sm, name, {key: _continue(partials[key]) for key in partials})
 
     # run simulation
     values, times = simulate_simple(
